@@ -50,6 +50,10 @@ func init() {
 			{ID: "C09-R24", Title: "read-only operations do not write the container (shared with C16-R30)", Floor: 20, Run: readOnlyOperationsDoNotWriteTheContainer},
 			{ID: "C09-R25", Title: "an importer's failure is not taken for absence, also by those who waited for it (shared with C14-R24)", Floor: 2, Run: importerFailuresAreNotTakenForAbsence},
 			{ID: "C09-R26", Title: "importers remember only successes (shared with C18-R21)", Floor: 1, Run: importersRememberOnlySuccesses},
+			{ID: "C09-R27", Title: "signal registrations are undone when the evaluation is over", Floor: 1, Run: signalRegistrationsAreUndone},
+			{ID: "C09-R28", Title: "callbacks that run on another goroutine run on a clone", Floor: 2, Run: callbacksThatRunElsewhereRunOnAClone},
+			{ID: "C09-R29", Title: "iterables are asked for a fresh iterator (shared with C10-R16)", Floor: 1, Run: iterablesAreAskedForAFreshIterator},
+			{ID: "C09-R30", Title: "fields accessed through sync/atomic are always accessed that way", Floor: 1, Run: atomicFieldsAreAlwaysAccessedAtomically},
 		},
 	})
 }
